@@ -194,6 +194,8 @@ def run(run, tier, seed):
                 run.nontriv(["cov", reads[:3], k, rc, len(reads)])
     finally:
         shutil.rmtree(tmp, ignore_errors=True)
+    import extras
+    extras.auto_min_count(run, tier, seed)      # Cli.tla: --min-count auto composes cov and build (drift only)
     ok, bad, states = vlib.validate_trace("Trace_Cov", events, "c20", shards=12, timeout=600)
     run.states += states
     run.transitions += len(events)
